@@ -94,6 +94,18 @@ TABLE={ # id: (property, demo file, package dir, -run pattern, needs)
  "C04-e":("C04","zz_seed_demo_test.go","transports/http/endpoints/api/headers","TestSeedDemo","a header read by hash, then a reorganisation that flips its state, then read again in the same process"),
  "C17-e":("C17","zz_seed_demo_test.go","database","TestSeedDemo","a start with prepared_db on a database that holds only height-0 rows"),
  "C19-e":("C19","zz_seed_demo_test.go","domains","TestSeedDemo","difficulty bits with exponent byte 0x09 or 0x0a and a mantissa whose shifted value exceeds 64 bits"),
+ "C09-e":("C09","zz_seed_demo_test.go","transports/http/endpoints/api/access","TestSeedDemo","auth on and a valid issued non-admin token on DELETE /api/v1/access/:token"),
+ "C10-e":("C10","zz_seed_demo_test.go","database/repository","TestSeedDemo","an admin revoke request whose token contains a single quote so that the formatted SQL stays well-formed"),
+ "C12-f":("C12","zz_seed_demo_test.go","notification","TestSeedDemo","a webhook target replying with a 2xx status other than 200"),
+ "C16-f":("C16","zz_seed_demo_test.go","transports/http/endpoints/api/headers","TestSeedDemo","header by hash / state with a hash parameter that does not parse (longer than 64 characters or non-hex)"),
+ "C02-f":("C02","zz_seed_demo_test.go","database/repository","TestSeedDemo","one verify request containing the exact same (root, height) pair twice"),
+ "C01-f":("C01","zz_seed_demo_test.go","service","TestSeedDemo","a reorganisation whose demoted or promoted part has at least 500 headers"),
+ "C05-f":("C05","zz_seed_demo_test.go","database","TestSeedDemo","an interruption exactly between the demotion and the promotion update of a reorganisation, then restart and redelivery"),
+ "C18-e":("C18","zz_seed_demo_test.go","transports/p2p","TestSeedDemo","a banned host reconnecting from another port while the ban runs"),
+ "C15-e":("C15","zz_seed_demo_test.go","service","TestSeedDemo","a tip read whose two storage calls straddle the two state updates of a reorganisation"),
+ "C06-f":("C06","zz_seed_demo_test.go","transports/p2p/p2psync","TestSeedDemo","a block announced by inv by a peer whose chain does not contain our tip, fork point above the 2000-header reply cap"),
+ "C13-f":("C13","zz_seed_demo_test.go","service","TestSeedDemo","a getheaders with a longest-chain stop hash 2001 or more ahead of the start"),
+ "C11-f":("C11","zz_seed_demo_test.go","service","TestSeedDemo","a submitted header whose hash is on the ignore list"),
 }
 ENV=dict(os.environ,GOFLAGS="-mod=mod",GOPROXY="off")
 def run(cmd,cwd,timeout=1500):
